@@ -2247,18 +2247,23 @@ def get_data_into(
     contact_efc_address = d.contact.efc_address.numpy()[ncon_filter]
 
     efc_idx_c = []
-    contact_efc_address_ordered = [ne + nf + nl]
+    contact_efc_address_ordered = []
+    nrow = ne + nf + nl
     for i in range(ncon):
       dim = contact_dim[i]
       if mjm.opt.cone == mujoco.mjtCone.mjCONE_PYRAMIDAL:
         ndim = np.maximum(1, 2 * (dim - 1))
       else:
         ndim = dim
-      efc_idx_c.append(contact_efc_address[i, :ndim])
-      if i < ncon - 1:
-        contact_efc_address_ordered.append(contact_efc_address_ordered[-1] + ndim)
-    efc_idx = np.concatenate((efc_idx_efl, *efc_idx_c))
-    contact_efc_address_ordered = np.array(contact_efc_address_ordered)
+      # a contact without constraint rows (not active: dist >= includemargin, or rows lost to njmax
+      # overflow) has address -1: it contributes no rows and keeps -1, as in MuJoCo
+      adr = contact_efc_address[i, :ndim]
+      adr = adr[adr >= 0]
+      efc_idx_c.append(adr)
+      contact_efc_address_ordered.append(nrow if adr.size else -1)
+      nrow += adr.size
+    efc_idx = np.concatenate((efc_idx_efl, *efc_idx_c)).astype(int)
+    contact_efc_address_ordered = np.array(contact_efc_address_ordered, dtype=int)
   else:
     efc_idx = np.array(np.arange(nefc))
     contact_efc_address_ordered = np.empty(0)
